@@ -9,9 +9,13 @@ RULE = ("scenarios from the grammar in harness/scen.py incl. CONCURRENCY < 1 and
         "at least one step; distinct = distinct (seed, index, strategy)")
 ASSUMPTIONS = ["station tolerance is the code's own EPS = 1e-5 kW",
                "vehicle-curve bound: average station power <= maximum of the (dis)charging curve on the SoC interval "
-               "traversed in the step (+1e-6)"]
-UNPROVED = ["per-strategy allocation invariants are proved only for the clamp (util.clamp_power) and the monitor; "
-            "the strategy-specific sentence is decided by the oracle on real runs of all eight strategies"]
+               "traversed in the step (+1e-6)",
+               "every run also carries the step-level tie of its strategy: the world before each strategy step is rendered for the Lean model of that strategy class, and commands, connector loads, station powers and SoCs after the real step are compared bit for bit"]
+UNPROVED = ["the vehicle-curve sentence has no theorem: six strategies load one battery several times per step (known "
+            "findings, recognised from the operation trace); it is proved impossible for peak_load_window and "
+            "schedule-individual (one load call per vehicle and step)",
+            "station theorems are over the ideal battery contract; distributed has none of its own (it inherits the "
+            "sub-strategy's through the delegation theorems of C14); schedule-collective with V2G is excluded"]
 
 
 def compare(case, impl, model):
